@@ -1,30 +1,485 @@
-(* C10 — Lexical scoping and structured control flow (first instalment; the
-   scope-shape and range theorems are in SemScope.v when present). *)
-From Coq Require Import List.
-From EvyV Require Import Base Ast Sem SemBasics.
+(* C10 — Lexical scoping and structured control flow.
+   Property theorems only; every proof is [exact <lemma of SemScope>].
+   All theorems quantify over every program P, every fuel n / f, every
+   environment and every state. *)
+From Coq Require Import ZArith NArith List String Bool.
+From EvyV Require Import Base Num Ast Omap OmapProofs Sem SemScope SemScopeEx.
 Import ListNotations.
 
-(* a statement list runs its statements in order and stops at the first one that
-   signals break or return, handing the signal to the enclosing construct *)
-Theorem C10_statement_list_stops_at_signal : forall n P e x t s,
-  exec_stmts (S n) P e (x :: t) s =
-  match exec_stmt n P e x s with
-  | (Ok (sig, e1), s1) => if is_ctl sig then (Ok (sig, e1), s1) else exec_stmts n P e1 t s1
-  | (Er er, s1) => (Er er, s1)
-  end.
-Proof. exact exec_stmts_cons. Qed.
-Print Assumptions C10_statement_list_stops_at_signal.
+(* ====================================================================== *)
+(* 1. Blocks restore the scope                                             *)
+(* ====================================================================== *)
 
-(* while tests its condition (in a fresh frame) before every iteration; break
-   ends exactly this loop, return is passed on *)
-Theorem C10_while_unfold : forall n P e c body,
-  exec_while (S n) P e c body =
-  (let* (r, e1) := exec_cond n P e c body in
+(* all six statement-level functions at once (induction on the fuel) *)
+Theorem C10_scope_invariant : forall n, scope_inv n.
+Proof. exact scope_inv_all. Qed.
+Print Assumptions C10_scope_invariant.
+
+Theorem C10_block_restores_scope : forall n P e s st sig e' st',
+  exec_stmt n P e s st = (Ok (sig, e'), st') ->
+  List.length e' = List.length e /\
+  shape (tl e') = shape (tl e) /\
+  (exists added, names (hd [] e') = added ++ names (hd [] e)) /\
+  (is_decl s = false -> shape e' = shape e) /\
+  (is_decl s = true -> tl e' = tl e).
+Proof. exact block_restores_scope. Qed.
+Print Assumptions C10_block_restores_scope.
+
+Theorem C10_block_pop_restores : forall n P e body st sig e2 st',
+  exec_block n P ([] :: e) body st = (Ok (sig, e2), st') ->
+  shape (tl e2) = shape e /\ List.length e2 = S (List.length e).
+Proof. exact block_pop_restores. Qed.
+Print Assumptions C10_block_pop_restores.
+
+Theorem C10_cond_restores_scope : forall n P e c body st r e' st',
+  exec_cond n P e c body st = (Ok (r, e'), st') -> shape e' = shape e.
+Proof. exact cond_restores_scope. Qed.
+Print Assumptions C10_cond_restores_scope.
+
+Theorem C10_while_restores_scope : forall n P e c body st sig e' st',
+  exec_while n P e c body st = (Ok (sig, e'), st') -> shape e' = shape e.
+Proof. exact while_restores_scope. Qed.
+Print Assumptions C10_while_restores_scope.
+
+(* the body of a for loop runs in the loop's own frame (evalFor pushes one
+   scope for the whole loop): that frame may gain names, the frames below do not *)
+Theorem C10_for_extends_scope : forall n P e var rg body st sig e' st',
+  exec_for n P e var rg body st = (Ok (sig, e'), st') -> ext e e'.
+Proof. exact for_extends_scope. Qed.
+Print Assumptions C10_for_extends_scope.
+
+(* top level: there is no local frame, declarations go to the globals *)
+Theorem C10_toplevel_env_stays_empty : forall n P l st sig e' st',
+  exec_stmts n P [] l st = (Ok (sig, e'), st') -> e' = [].
+Proof. exact toplevel_env_stays_empty. Qed.
+Print Assumptions C10_toplevel_env_stays_empty.
+
+(* shadowing restores the outer variable: a block without an assignment
+   [x = ...] leaves x bound to the same cell in every enclosing frame *)
+Theorem C10_shadowing_restores_outer : forall x n P e body st sig e2 st',
+  exec_block n P ([] :: e) body st = (Ok (sig, e2), st') ->
+  existsb (assigns x) body = false ->
+  bindings x (tl e2) = bindings x e.
+Proof. exact shadowing_restores_outer. Qed.
+Print Assumptions C10_shadowing_restores_outer.
+
+Theorem C10_compound_keeps_bindings : forall x n P e s st sig e' st',
+  exec_stmt n P e s st = (Ok (sig, e'), st') ->
+  assigns x s = false ->
+  bindings x (tl e') = bindings x (tl e) /\ (is_decl s = false -> bindings x e' = bindings x e).
+Proof. exact compound_keeps_bindings. Qed.
+Print Assumptions C10_compound_keeps_bindings.
+
+(* ====================================================================== *)
+(* 2. Calls and handlers see parameters, own locals and globals only       *)
+(* ====================================================================== *)
+
+Theorem C10_eval_call_user : forall f P e name args fd st,
+  resolves_to P name fd ->
+  eval_call (S f) P e name args st =
+  (let* vals := eval_exprs f P e args in call_user f P fd vals) st.
+Proof. exact eval_call_user. Qed.
+Print Assumptions C10_eval_call_user.
+
+Theorem C10_call_sees_only_params_locals_globals : forall f P name args fd e1 e2 st,
+  resolves_to P name fd ->
+  eval_exprs f P e1 args st = eval_exprs f P e2 args st ->
+  eval_call (S f) P e1 name args st = eval_call (S f) P e2 name args st.
+Proof. exact call_sees_only_params_locals_globals. Qed.
+Print Assumptions C10_call_sees_only_params_locals_globals.
+
+Theorem C10_call_frame_names : forall fd vals st fr st',
+  call_frame fd vals st = (Ok fr, st') -> incl (names fr) (param_names fd).
+Proof. exact call_frame_names. Qed.
+Print Assumptions C10_call_frame_names.
+
+Theorem C10_call_stmt_keeps_env : forall n P e name args st sig e' st',
+  exec_stmt n P e (SCallStmt name args) st = (Ok (sig, e'), st') -> sig = SigNone /\ e' = e.
+Proof. exact call_stmt_keeps_env. Qed.
+Print Assumptions C10_call_stmt_keeps_env.
+
+Theorem C10_builtin_none_indep : forall name e vals e' vals',
+  builtin name e vals = None -> builtin name e' vals' = None.
+Proof. exact builtin_none_indep. Qed.
+Print Assumptions C10_builtin_none_indep.
+
+Theorem C10_handle_event_unfold : forall fuel P name args s0,
+  handle_event fuel P name args s0 =
+  match find_handler name (p_handlers P) with
+  | None => (OErr (EHostCrash (s_ "no event handler")), s0)
+  | Some h => match handler_run fuel P h args s0 with
+              | (Er e, s1) => (OErr e, s1)
+              | (Ok _, s1) => (ODone, s1)
+              end
+  end.
+Proof. exact handle_event_unfold. Qed.
+Print Assumptions C10_handle_event_unfold.
+
+Theorem C10_handler_frame_names : forall h args st fr st',
+  bind_payload (h_params h) args [] st = (Ok fr, st') -> incl (names fr) (map fst (h_params h)).
+Proof. exact handler_frame_names. Qed.
+Print Assumptions C10_handler_frame_names.
+
+(* ====================================================================== *)
+(* 3. break / return                                                       *)
+(* ====================================================================== *)
+
+Theorem C10_signal_invariant : forall n, signal_inv n.
+Proof. exact signal_inv_all. Qed.
+Print Assumptions C10_signal_invariant.
+
+Theorem C10_stmts_stop_at_first_signal : forall n P e l st sig e' st',
+  exec_stmts n P e l st = (Ok (sig, e'), st') -> stmts_run P e st l sig e' st'.
+Proof. exact stmts_stop_at_first_signal. Qed.
+Print Assumptions C10_stmts_stop_at_first_signal.
+
+Theorem C10_stmts_after_signal_irrelevant : forall f P e s t t' st sig e1 st1,
+  exec_stmt f P e s st = (Ok (sig, e1), st1) -> is_ctl sig = true ->
+  exec_stmts (S f) P e (s :: t) st = exec_stmts (S f) P e (s :: t') st.
+Proof. exact stmts_after_signal_irrelevant. Qed.
+Print Assumptions C10_stmts_after_signal_irrelevant.
+
+Theorem C10_break_leaves_innermost_loop :
+  (forall f P e c body st e1 st1,
+     exec_cond f P e c body st = (Ok (Some SigBreak, e1), st1) ->
+     exec_while (S f) P e c body st = (Ok (SigNone, e1), st1)) /\
+  (forall f P e var rg body st l rg' st1 e1 st2 e2 st3,
+     for_next rg st = (Ok (Some (l, rg')), st1) -> update_var var l e st1 = (Ok e1, st2) ->
+     exec_block f P e1 body st2 = (Ok (SigBreak, e2), st3) ->
+     exec_for (S f) P e var rg body st = (Ok (SigNone, e2), st3)) /\
+  (forall n P e c body st sig e' st',
+     exec_while n P e c body st = (Ok (sig, e'), st') -> sig <> SigBreak) /\
+  (forall n P e var rg body st sig e' st',
+     exec_for n P e var rg body st = (Ok (sig, e'), st') -> sig <> SigBreak) /\
+  (forall n P e s st e' st',
+     exec_stmt n P e s st = (Ok (SigBreak, e'), st') -> break_reachable s = true) /\
+  (forall f P e s t st sig e1 st1,
+     exec_stmt f P e s st = (Ok (sig, e1), st1) -> is_ctl sig = true ->
+     exec_stmts (S f) P e (s :: t) st = (Ok (sig, e1), st1)) /\
+  (forall n P e conds els st sig e' st',
+     exec_stmt n P e (SIf conds els) st = (Ok (sig, e'), st') ->
+     (sig = SigNone /\ e' = e) \/
+     exists body k st0 e2, In body (if_bodies conds els) /\
+       exec_block k P ([] :: e) body st0 = (Ok (sig, e2), st') /\ e' = tl e2).
+Proof. exact break_leaves_innermost_loop. Qed.
+Print Assumptions C10_break_leaves_innermost_loop.
+
+Theorem C10_loop_stmt_never_breaks : forall n P e s st sig e' st',
+  (exists c b, s = SWhile c b) \/ (exists v t r b, s = SFor v t r b) ->
+  exec_stmt n P e s st = (Ok (sig, e'), st') -> sig <> SigBreak.
+Proof. exact loop_stmt_never_breaks. Qed.
+Print Assumptions C10_loop_stmt_never_breaks.
+
+Theorem C10_return_leaves_call :
+  (forall f P e s t st v e1 st1,
+     exec_stmt f P e s st = (Ok (SigReturn v, e1), st1) ->
+     exec_stmts (S f) P e (s :: t) st = (Ok (SigReturn v, e1), st1)) /\
+  (forall f P e l st st0 sig e' st',
+     tick st = (Ok tt, st0) -> exec_stmts f P e l st0 = (Ok (sig, e'), st') ->
+     exec_block (S f) P e l st = (Ok (sig, e'), st')) /\
+  (forall f P e c body st l st1 st2 sig e2 st',
+     eval_expr f P ([] :: e) c st = (Ok l, st1) -> load l st1 = (Ok (HBool true), st2) ->
+     exec_block f P ([] :: e) body st2 = (Ok (sig, e2), st') ->
+     exec_cond (S f) P e c body st = (Ok (Some sig, tl e2), st')) /\
+  (forall f P els c body t e st sig e1 st1,
+     exec_cond f P e c body st = (Ok (Some sig, e1), st1) ->
+     if_go f P els ((c, body) :: t) e st = (Ok (sig, e1), st1)) /\
+  (forall f P e c body st v e1 st1,
+     exec_cond f P e c body st = (Ok (Some (SigReturn v), e1), st1) ->
+     exec_while (S f) P e c body st = (Ok (SigReturn v, e1), st1)) /\
+  (forall f P e var rg body st l rg' st1 e1 st2 v e2 st3,
+     for_next rg st = (Ok (Some (l, rg')), st1) -> update_var var l e st1 = (Ok e1, st2) ->
+     exec_block f P e1 body st2 = (Ok (SigReturn v, e2), st3) ->
+     exec_for (S f) P e var rg body st = (Ok (SigReturn v, e2), st3)) /\
+  (forall f P fd vals st fr st1 v e2 st2,
+     call_frame fd vals st = (Ok fr, st1) ->
+     exec_block f P [fr] (fn_body fd) st1 = (Ok (SigReturn v, e2), st2) ->
+     call_user f P fd vals st = (Ok v, st2)) /\
+  (forall f P fd vals st fr st1 sig e2 st2,
+     call_frame fd vals st = (Ok fr, st1) ->
+     exec_block f P [fr] (fn_body fd) st1 = (Ok (sig, e2), st2) ->
+     (forall v, sig <> SigReturn v) ->
+     call_user f P fd vals st = (let* l := alloc HNone in ret (Some l)) st2) /\
+  (forall n P e s st v e' st',
+     exec_stmt n P e s st = (Ok (SigReturn v, e'), st') -> return_reachable s = true).
+Proof. exact return_leaves_call. Qed.
+Print Assumptions C10_return_leaves_call.
+
+(* the if statement of Sem.v is [tick; if_go] *)
+Theorem C10_exec_stmt_if : forall f P e conds els,
+  exec_stmt (S f) P e (SIf conds els) = (let* _ := tick in if_go f P els conds e).
+Proof. exact exec_stmt_if. Qed.
+Print Assumptions C10_exec_stmt_if.
+
+(* ====================================================================== *)
+(* 4. while tests its condition before every iteration                     *)
+(* ====================================================================== *)
+
+Theorem C10_while_unfold : forall f P e c body,
+  exec_while (S f) P e c body =
+  (let* (r, e1) := exec_cond f P e c body in
    match r with
    | None => ret (SigNone, e1)
    | Some SigBreak => ret (SigNone, e1)
    | Some (SigReturn v) => ret (SigReturn v, e1)
-   | Some SigNone => exec_while n P e1 c body
+   | Some SigNone => exec_while f P e1 c body
    end).
-Proof. exact exec_while_unfold. Qed.
+Proof. exact while_unfold. Qed.
 Print Assumptions C10_while_unfold.
+
+Theorem C10_exec_cond_unfold : forall f P e c body,
+  exec_cond (S f) P e c body =
+  (let* l := eval_expr f P ([] :: e) c in
+   let* v := load l in
+   match v with
+   | HBool true => let* (sig, e2) := exec_block f P ([] :: e) body in ret (Some sig, tl e2)
+   | HBool false => ret (None, e)
+   | _ => internal "conditional not a bool"
+   end).
+Proof. exact exec_cond_unfold. Qed.
+Print Assumptions C10_exec_cond_unfold.
+
+(* a false condition ends the loop without looking at the body *)
+Theorem C10_while_false_no_body : forall f P e c body body' st l st1 st2,
+  eval_expr f P ([] :: e) c st = (Ok l, st1) -> load l st1 = (Ok (HBool false), st2) ->
+  exec_while (S (S f)) P e c body st = (Ok (SigNone, e), st2) /\
+  exec_while (S (S f)) P e c body' st = (Ok (SigNone, e), st2).
+Proof. exact while_false_no_body. Qed.
+Print Assumptions C10_while_false_no_body.
+
+Theorem C10_while_iterates : forall f P e c body st e1 st1,
+  exec_cond f P e c body st = (Ok (Some SigNone, e1), st1) ->
+  exec_while (S f) P e c body st = exec_while f P e1 c body st1.
+Proof. exact while_iterates. Qed.
+Print Assumptions C10_while_iterates.
+
+(* ====================================================================== *)
+(* 5. for ... range                                                        *)
+(* ====================================================================== *)
+
+(* the range expressions occur in [for_init] only: evaluated once, at loop entry *)
+Theorem C10_exec_stmt_for : forall f P e var vt r body,
+  exec_stmt (S f) P e (SFor var vt r body) =
+  (let* _ := tick in
+   let* (rg, e2) := for_init f P ([] :: e) var vt r in
+   let* (sig, e3) := exec_for f P e2 (loopvar_name var) rg body in
+   ret (sig, tl e3)).
+Proof. exact exec_stmt_for. Qed.
+Print Assumptions C10_exec_stmt_for.
+
+Theorem C10_exec_for_unfold : forall f P e var rg body,
+  exec_for (S f) P e var rg body = (let* nx := for_next rg in for_iter f P e var body nx).
+Proof. exact exec_for_unfold. Qed.
+Print Assumptions C10_exec_for_unfold.
+
+Theorem C10_for_init_step_inv : forall f P e1 var vt start stop step st rg e2 st',
+  for_init f P e1 var vt (RStep start stop step) st = (Ok (rg, e2), st') ->
+  exists a st1 b st2 c st3,
+    range_num f P e1 start f_zero st = (Ok a, st1) /\
+    range_num f P e1 (Some stop) f_zero st1 = (Ok b, st2) /\
+    range_num f P e1 step f_one st2 = (Ok c, st3) /\
+    PrimFloat.eqb c f_zero = false /\ rg = RgStep a b c.
+Proof. exact for_init_step_inv. Qed.
+Print Assumptions C10_for_init_step_inv.
+
+Theorem C10_for_init_expr_inv : forall f P e1 var vt y st rg e2 st',
+  for_init f P e1 var vt (RExpr y) st = (Ok (rg, e2), st') ->
+  exists l st1, eval_expr f P e1 y st = (Ok l, st1) /\
+    match hget (st_heap st1) l with
+    | Some (HArr _) => rg = RgArr l 0
+    | Some (HStr s) => rg = RgStr s 0
+    | Some (HMap om) => rg = RgMap l (order om)
+    | _ => False
+    end.
+Proof. exact for_init_expr_inv. Qed.
+Print Assumptions C10_for_init_expr_inv.
+
+Theorem C10_for_zero_step_panics : forall f P e var vt start stop step body st st0 a st1 b st2 c st3,
+  tick st = (Ok tt, st0) ->
+  range_num f P ([] :: e) start f_zero st0 = (Ok a, st1) ->
+  range_num f P ([] :: e) (Some stop) f_zero st1 = (Ok b, st2) ->
+  range_num f P ([] :: e) step f_one st2 = (Ok c, st3) ->
+  PrimFloat.eqb c f_zero = true ->
+  exec_stmt (S f) P e (SFor var vt (RStep start stop step) body) st = (Er (EPanic PkRangeValue), st3).
+Proof. exact for_zero_step_panics. Qed.
+Print Assumptions C10_for_zero_step_panics.
+
+(* instrumented iteration *)
+Theorem C10_exec_for_trace : forall n P e var rg body st sig e' st',
+  exec_for n P e var rg body st = (Ok (sig, e'), st') ->
+  exists tr en, for_trace P var body rg e st tr en e' st' /\ sig = for_end_signal en.
+Proof. exact exec_for_trace. Qed.
+Print Assumptions C10_exec_for_trace.
+
+Theorem C10_for_stmt_trace : forall n P e var vt r body st sig e' st',
+  exec_stmt n P e (SFor var vt r body) st = (Ok (sig, e'), st') ->
+  exists f st0 rg e2 st1 tr en e3,
+    for_init f P ([] :: e) var vt r st0 = (Ok (rg, e2), st1) /\
+    tl e2 = e /\ var_in_top (loopvar_name var) e2 /\
+    for_trace P (loopvar_name var) body rg e2 st1 tr en e3 st' /\
+    sig = for_end_signal en /\ e' = tl e3.
+Proof. exact for_stmt_trace. Qed.
+Print Assumptions C10_for_stmt_trace.
+
+Theorem C10_for_trace_binds_var : forall P var body rg e st tr en e' st',
+  for_trace P var body rg e st tr en e' st' ->
+  str_eqb var underscore = false -> In var (names (hd [] e)) ->
+  Forall (fun v => env_get var (v_env v) = Some (v_loc v)) tr.
+Proof. exact for_trace_binds_var. Qed.
+Print Assumptions C10_for_trace_binds_var.
+
+(* numeric: the values are cur, cur+step, ... up to Go's stop test *)
+Theorem C10_for_num_spec : forall P var body a b c e st tr en e' st',
+  for_trace P var body (RgStep a b c) e st tr en e' st' ->
+  map visit_val tr = map (fun x => Some (HNum x)) (go_steps (List.length tr) a b c) /\
+  (en = FeDone -> go_steps (S (List.length tr)) a b c = go_steps (List.length tr) a b c).
+Proof. exact for_num_spec. Qed.
+Print Assumptions C10_for_num_spec.
+
+(* with the sequence of the property text, whenever no NaN is involved *)
+Theorem C10_for_num_spec_partial : forall P var body a b c e st tr en e' st',
+  for_trace P var body (RgStep a b c) e st tr en e' st' ->
+  is_nan b = false -> is_nan c = false -> PrimFloat.eqb c f_zero = false ->
+  (forall j, (j <= List.length tr)%nat -> is_nan (iter_add j a c) = false) ->
+  map visit_val tr = map (fun x => Some (HNum x)) (steps (List.length tr) a b c) /\
+  (en = FeDone -> steps (S (List.length tr)) a b c = steps (List.length tr) a b c).
+Proof. exact for_num_spec_steps. Qed.
+Print Assumptions C10_for_num_spec_partial.
+
+(* the same without the NaN side conditions is false of the model (and of ranger.go) *)
+Theorem C10_for_num_spec_full_refuted : ~ for_num_spec_full.
+Proof. exact for_num_spec_full_refuted. Qed.
+Print Assumptions C10_for_num_spec_full_refuted.
+
+Theorem C10_for_num_spec_nan_refuted :
+  exists a b c, PrimFloat.eqb c f_zero = false /\ steps 5 a b c = [] /\
+    go_steps 5 a b c = [a; a; a; a; a] /\
+    forall n P e st r st', exec_for n P e underscore (RgStep a b c) [] st <> (Ok r, st').
+Proof. exact for_num_spec_nan_refuted. Qed.
+Print Assumptions C10_for_num_spec_nan_refuted.
+
+Theorem C10_for_array_spec : forall P var body a i0 e st tr en e' st',
+  for_trace P var body (RgArr a i0) e st tr en e' st' ->
+  Forall2 (arr_visit a) (seq i0 (List.length tr)) tr /\
+  (en = FeDone -> exists els, hget (st_heap st') a = Some (HArr els) /\
+                              (List.length els <= i0 + List.length tr)%nat).
+Proof. exact for_array_spec. Qed.
+Print Assumptions C10_for_array_spec.
+
+Theorem C10_for_string_spec : forall P var body s i0 e st tr en e' st',
+  for_trace P var body (RgStr s i0) e st tr en e' st' ->
+  map visit_val tr = map (fun c => Some (HStr [c])) (firstn (List.length tr) (skipn i0 s)) /\
+  (en = FeDone -> (List.length s <= i0 + List.length tr)%nat).
+Proof. exact for_string_spec. Qed.
+Print Assumptions C10_for_string_spec.
+
+Theorem C10_for_string_complete : forall P var body s e st tr e' st',
+  for_trace P var body (RgStr s 0) e st tr FeDone e' st' ->
+  map visit_val tr = map (fun c => Some (HStr [c])) s.
+Proof. exact for_string_complete. Qed.
+Print Assumptions C10_for_string_complete.
+
+Theorem C10_for_map_spec : forall P var body m todo e st tr en e' st',
+  for_trace P var body (RgMap m todo) e st tr en e' st' -> map_walk m todo tr en st'.
+Proof. exact for_map_spec. Qed.
+Print Assumptions C10_for_map_spec.
+
+Theorem C10_map_walk_subseq : forall m todo tr en stf,
+  map_walk m todo tr en stf ->
+  exists ks, map visit_val tr = map (fun k => Some (HStr k)) ks /\ subseq ks todo.
+Proof. exact map_walk_subseq. Qed.
+Print Assumptions C10_map_walk_subseq.
+
+(* ====================================================================== *)
+(* Examples (programs of SemScopeEx.v, evaluated by vm_compute)            *)
+(* ====================================================================== *)
+Local Open Scope string_scope.
+Ltac vmc := unfold resolves_to; repeat (apply conj); vm_compute; reflexivity.
+
+(* if inside for inside while inside a function; shadowing at three depths;
+   break leaves only the for; return leaves the call from the innermost if;
+   recursion keeps one x per activation; the global x is untouched *)
+Example ex_nested_program :
+  outcome_of (run_program 300 prog st0) = ODone /\
+  printed_of (run_program 300 prog st0) = lines ["0"; "1"; "1"; "100"; "0"; "1"; "10"; "5"].
+Proof. vmc. Qed.
+
+(* hypotheses of C10_block_restores_scope / C10_while_restores_scope /
+   C10_compound_keeps_bindings: the while statement of f run in a two-frame
+   environment ends normally, with the shape and the bindings of x it started with *)
+Example ex_while_keeps_scope :
+  signal_of (exec_stmt 100 prog e_in the_while st_in) = Some SigNone /\
+  shape_of (exec_stmt 100 prog e_in the_while st_in) = Some (shape e_in) /\
+  assigns nx the_while = false /\
+  bindings_of nx (exec_stmt 100 prog e_in the_while st_in) = Some (bindings nx e_in).
+Proof. vmc. Qed.
+
+(* the function body gains the name x in its own frame and signals the return *)
+Example ex_body_extends_frame :
+  shape_of (exec_block 100 prog [[(nn, 4%positive)]] (fn_body f_def) st_in) = Some [[nx; nn]] /\
+  signal_of (exec_block 100 prog [[(nn, 4%positive)]] (fn_body f_def) st_in) = Some (SigReturn (Some 7%positive)).
+Proof. vmc. Qed.
+
+(* hypotheses of C10_shadowing_restores_outer, and why the hypothesis is there:
+   a block that declares x leaves the outer x alone, a block that assigns x rebinds it,
+   a block that declares x first and then assigns assigns its own x *)
+Example ex_shadowing :
+  existsb (assigns nx) blk_shadow = false /\
+  bindings_of nx (exec_block 100 prog ([] :: e_in) blk_shadow st_in)
+    = Some [Some 7%positive; Some 5%positive; None] /\   (* block frame :: e_in *)
+  bindings nx e_in = [Some 5%positive; None] /\
+  bindings_of nx (exec_block 100 prog ([] :: e_in) blk_assign st_in)
+    = Some [None; Some 7%positive; None] /\
+  bindings_of nx (exec_block 100 prog ([] :: e_in) blk_decl_assign st_in)
+    = Some [Some 9%positive; Some 5%positive; None].
+Proof. vmc. Qed.
+
+(* hypotheses of C10_eval_call_user / C10_call_sees_only_params_locals_globals *)
+Example ex_resolves : resolves_to prog nf f_def /\ resolves_to prog nsum sum_def.
+Proof. vmc. Qed.
+
+(* the same call from two different caller environments *)
+Example ex_call_env_independent :
+  eval_exprs 99 prog e_in call_f9 st_in = eval_exprs 99 prog [] call_f9 st_in /\
+  eval_call 100 prog e_in nf call_f9 st_in = eval_call 100 prog [] nf call_f9 st_in /\
+  is_ok (eval_call 100 prog e_in nf call_f9 st_in) = true.
+Proof. vmc. Qed.
+
+(* numeric ranges: default start/step, negative fractional step, empty range, zero step *)
+Example ex_ranges :
+  printed_of (run_program 300 range_up st0) = lines ["0"; "1"; "2"; "3"] /\
+  steps_up = expect_up /\
+  printed_of (run_program 300 range_down_frac st0) = lines ["1"; "0.75"; "0.5"; "0.25"] /\
+  steps_down_frac = expect_down_frac /\
+  printed_of (run_program 300 range_empty st0) = [] /\
+  steps_empty = [] /\
+  outcome_of (run_program 300 range_zero_step st0) = OErr (EPanic PkRangeValue) /\
+  printed_of (run_program 300 range_zero_step st0) = [].
+Proof. vmc. Qed.
+
+(* array (live, re-read), string (entry value), map (entry keys still present) *)
+Example ex_collections :
+  outcome_of (run_program 300 coll_prog st0) = ODone /\
+  printed_of (run_program 300 coll_prog st0) =
+    map (fun x => Some (x ++ [10%N])%list)
+        [ s_ "1"; s_ "2"; s_ "30"; [104%N]; [233%N]; [121%N]; s_ "a"; s_ "c" ].
+Proof. vmc. Qed.
+
+(* while: condition first, every iteration; a false condition runs nothing *)
+Example ex_while :
+  outcome_of (run_program 300 while_prog st0) = ODone /\
+  printed_of (run_program 300 while_prog st0) = lines ["0"; "1"; "2"].
+Proof. vmc. Qed.
+
+(* hypotheses of C10_exec_for_trace and the range specifications: a concrete
+   loop that ends normally, so a trace exists for it *)
+Example ex_for_trace_exists :
+  exists tr en e' st', for_trace prog ni [] (RgStep f_zero f_one f_one) [[(ni, 4%positive)]] st_in tr en e' st'.
+Proof.
+  assert (H : exists r st', exec_for 50 prog [[(ni, 4%positive)]] ni (RgStep f_zero f_one f_one) [] st_in = (Ok r, st')).
+  { destruct (exec_for 50 prog [[(ni, 4%positive)]] ni (RgStep f_zero f_one f_one) [] st_in) as [[r|x] st'] eqn:E.
+    - exists r, st'. reflexivity.
+    - exfalso. apply (f_equal is_ok) in E. vm_compute in E. discriminate. }
+  destruct H as ([sig e'] & st' & H). apply exec_for_trace in H as (tr & en & H & _).
+  exists tr, en, e', st'. exact H.
+Qed.
